@@ -1,5 +1,6 @@
 import MtailVerif.Proofs.VMTime
 import MtailVerif.Props.C05
+import MtailVerif.Proofs.Skeletons
 /-! # C07 — timestamps follow strptime/settime and default to processing time
 
     The library's `time.Parse`/`ParseInLocation` (with the configured zone and, when the option is
@@ -63,5 +64,12 @@ theorem stamp_default_now : stampOf zeroT = none := stampOf_zero
 
 /-- the reserved instant: `settime(-62135596800)` leaves the register "unset" -/
 theorem reserved_instant : (-62135596800 : Int) * 1000000000 = zeroT := by decide
+
+/-! ### regenerated control skeletons (written by lib/wire_skeletons.py) -/
+/-- Obligations over regenerated facts: the functions this property's model stands for have the
+    control skeleton the model was written against (`Proofs/Skeletons.lean`, one `rfl` per function
+    or clause; DESIGN.md §11.6a) -/
+theorem datum_skeletons : Skeletons.DatumShape := Skeletons.datum_shape
+theorem exec_skeletons : Skeletons.ExecShape := Skeletons.exec_shape
 
 end MtailVerif.C07
